@@ -14,7 +14,6 @@ import (
 	"errors"
 	"fmt"
 	"math/big"
-	"strconv"
 	"strings"
 
 	"github.com/google/wuffs/lib/interval"
@@ -1620,11 +1619,10 @@ func makeSliceLength(x *a.Expr) *a.Expr {
 func (q *checker) makeSliceLengthEqEq(x *a.Expr, n t.ID) *a.Expr {
 	lhs := makeSliceLength(x)
 
-	nValue, err := strconv.Atoi(n.Str(q.tm))
-	if err != nil {
-		panic("check: internal error: makeSliceLengthEqEq called but not with a small integer")
+	cv, ok := big.NewInt(0).SetString(n.Str(q.tm), 10)
+	if !ok {
+		panic("check: internal error: makeSliceLengthEqEq called but not with an integer")
 	}
-	cv := big.NewInt(int64(nValue))
 
 	rhs := a.NewExpr(0, 0, n, nil, nil, nil, nil)
 	rhs.SetConstValue(cv)
